@@ -806,8 +806,19 @@ func parseGroupPhase(state string) groupPhase {
 	}
 }
 
+// maxMemberIDPrefix bounds the part of a member id that is taken from the
+// group id. Member ids are echoed in JoinGroup/SyncGroup/DescribeGroups
+// responses, where non-flexible versions write strings with an int16 length:
+// a member id longer than 32767 bytes would wrap the length and corrupt the
+// response.
+const maxMemberIDPrefix = 128
+
 func (c *GroupCoordinator) newMemberID(group string) string {
-	return fmt.Sprintf("%s-%d", group, rand.Int63())
+	prefix := group
+	if len(prefix) > maxMemberIDPrefix {
+		prefix = strings.ToValidUTF8(prefix[:maxMemberIDPrefix], "")
+	}
+	return fmt.Sprintf("%s-%d", prefix, rand.Int63())
 }
 
 func (c *GroupCoordinator) parseSubscriptionTopics(protocols []kmsg.JoinGroupRequestProtocol) []string {
